@@ -67,9 +67,11 @@ func init() {
 		},
 	}
 	Props["C10"] = PropDef{
-		Explanation: "R-ORIGIN: Conn.SetCipher installs the decrypt stream on the reader side and the encrypt stream on the writer side over the socket, and both call sites (bot, server/auth) pass (NewCFB8Encrypt, NewCFB8Decrypt) built over the same block and IV - necessary for an encrypted connection to be transparent. Not decided: that XORKeyStream computes AES-CFB8 for every call pattern (byte values from ring-buffer index arithmetic with unsafe aliasing tests: no static argument in reach).",
+		Explanation: "R-ORIGIN: Conn.SetCipher installs the decrypt stream on the reader side and the encrypt stream on the writer side over the socket, and both call sites (bot, server/auth) pass (NewCFB8Encrypt, NewCFB8Decrypt) built over the same block and IV - necessary for an encrypted connection to be transparent. R-NOALIAS: the CFB8 constructors keep no memory of their slice parameters. Not decided: that XORKeyStream computes AES-CFB8 for every call pattern (byte values from ring-buffer index arithmetic with unsafe aliasing tests: no static argument in reach).",
 		Run: func(c *Ctx) []core.Ob {
-			return c.CipherWiring()
+			obs := c.CipherWiring()
+			obs = append(obs, c.NoRetainedParamSlices("net/CFB8")...)
+			return obs
 		},
 	}
 	Props["C11"] = PropDef{
